@@ -26,6 +26,7 @@ async def amain(spec: dict) -> dict:
     async def send() -> None:
         await asyncio.sleep(sig['at'])
         try:
+            res['signal_sent_late_by'] = round(time.time() - t0 - sig['at'], 2)     # how late this task was allowed to run
             getattr(running, sig['kind'])()
             res['signal_sent'] = True
         except Exception as e:  # noqa
